@@ -1425,6 +1425,12 @@ def std_model(I, p, fr, t, args):
         return ((a_ + b_ - 1) // b_) * b_
     if n in ("div_ceil",) and len(args) == 2 and all(isinstance(I.deref(a), int) and not isinstance(I.deref(a), bool) for a in args) and I.deref(args[1]) > 0:
         return -(-I.deref(args[0]) // I.deref(args[1]))
+    if n in ("unsigned_abs", "abs", "wrapping_abs") and len(args) == 1:
+        v_ = I.deref(args[0])
+        if isinstance(v_, int) and not isinstance(v_, bool):
+            return abs(v_)
+        if isinstance(v_, Sym):
+            return Sym("%s(%s)" % (n, v_.name))      # a value derived from the symbolic one: kept recognisable
     if n in ("saturating_sub",) and len(args) == 2 and all(isinstance(I.deref(a), int) and not isinstance(I.deref(a), bool) for a in args):
         return max(I.deref(args[0]) - I.deref(args[1]), 0)
     if n == "zip" and isinstance(d0, Adt) and d0.path == "core::ops::range::RangeFrom" and isinstance(d0.fields.get("start"), int) and len(args) > 1:
